@@ -1,3 +1,4 @@
 import Spec.Tables
 import Spec.Schemas
 import Spec.AuthData
+import Spec.U2f
